@@ -142,7 +142,7 @@ def finalOk (m : Map) (f : FinalObs) : Bool :=
     f.extension && isLegacy f.profile &&
       (match m with | (_, v) :: _ => v.length % 4 != 0 | [] => false)
   | .ok _ =>
-    f.un == .ok () && f.wireGets == (OM.keys m).map fun k => (k, OM.get m k)
+    (m.isEmpty || f.un == .ok ()) && f.wireGets == (OM.keys m).map fun k => (k, OM.get m k)
 
 def holds (ops : List Op) (o : Obs) : Bool :=
   !o.startOk ||
@@ -170,11 +170,14 @@ def finalHeader (s : Start) (ops : List Op) : Option Header :=
 
 /-- hypothesis of the wire part of `c05_pred_model`: the header after the history is in the domain
     of C01's round trip theorem (legal elements, ≤ 15 CSRCs, block ≤ 65535 words, …), or Marshal
-    refuses it -/
+    refuses it, or it shows no element at all (nothing has to survive then) -/
+def finalWfH (h : Header) : Bool :=
+  C01.wfH h || (hdrMarshal h).isErr || (getExtensionIDs h).isEmpty
+
 def finalWf (s : Start) (ops : List Op) : Bool :=
   match finalHeader s ops with
   | none => false
-  | some h => C01.wfH h || (hdrMarshal h).isErr
+  | some h => finalWfH h
 
 /-! ### the abstraction used by the refinement theorems -/
 
